@@ -6,7 +6,7 @@ import z3
 
 from . import symx, symnp
 from .symx import (F64, INT64_MIN, StrCell, SymBool, SymDT, SymF64, SymI64, SymPyFloat, SymPyInt, SymStr, SymTD)
-from .tree import Arr, Frame, LoD, Opaque, Raised, NAN_HEX, dtype_kind, dtype_unit
+from .tree import Arr, Frame, LoD, Opaque, Raised, NpScalar, NAN_HEX, dtype_kind, dtype_unit
 
 # ------------------------------------------------------------------ dtype strings
 
@@ -49,6 +49,7 @@ def materialise(t):
     if isinstance(t, list): return [materialise(x) for x in t]
     if isinstance(t, tuple): return tuple(materialise(x) for x in t)
     if isinstance(t, dict): return {k: materialise(v) for k, v in t.items()}
+    if isinstance(t, NpScalar): return t.value
     return t
 
 def materialise_obj(c):
@@ -144,14 +145,29 @@ def enc_cell(c, kind, m):
     if kind in "TU": return _s_val(m, c)
     return encode(c, m)
 
+CANON = [False]     # canonical output form: Python dates / datetimes / timedeltas written like datetime64 / timedelta64 scalars
+
+def encode_out(t, m=None):
+    """encode an operation's OUTPUT (canonical date forms, comparable with the real side's encoding)"""
+    CANON[0] = True
+    try:
+        return encode(t, m)
+    finally:
+        CANON[0] = False
+
 def encode(t, m=None):
     """tree -> JSON-able value, symbolic leaves evaluated in model m (None: leaves must be constants)"""
     if t is None: return t
     if isinstance(t, SymBool): return _b_val(m, t.e)
     if isinstance(t, SymI64): return _i_val(m, t.e)
     if isinstance(t, SymF64): return {"f": _f_hex(m, t.e)}
-    if isinstance(t, SymDT): return {"M": _i_val(m, t.e), "u": t.unit}
-    if isinstance(t, SymTD): return {"m": _i_val(m, t.e), "u": t.unit}
+    if isinstance(t, (SymDT, SymTD)):
+        key = "M" if isinstance(t, SymDT) else "m"
+        v = _i_val(m, t.e); unit = t.unit
+        if v == INT64_MIN: return {key: v, "u": "generic"}
+        if unit in ("s", "ms") or (key == "m" and unit in ("D", "h", "m")):
+            v *= symx._UNIT_FACTOR[unit]; unit = "us"
+        return {key: v, "u": unit}
     if isinstance(t, (SymStr, StrCell)): return _s_val(m, t)
     if isinstance(t, (bool, str)): return t
     if isinstance(t, int): return t
@@ -166,13 +182,17 @@ def encode(t, m=None):
     if isinstance(t, LoD):
         return {"lod": t.cls, "items": [[[k, encode(v, m)] for k, v in item] for item in t.items],
                 "obsolete": bool(t.obsolete), "group": list(t.group), "item_cls": t.item_cls}
+    if isinstance(t, NpScalar): return {"np": encode(t.value, m)}
+    if isinstance(t, _dtm.timedelta): return {"td": t // _dtm.timedelta(microseconds=1)} if not CANON[0] else {"m": t // _dtm.timedelta(microseconds=1), "u": "us"}
     if isinstance(t, Raised): return {"exc": t.type, "msg": t.msg}
     if isinstance(t, Opaque): return {"opaque": t.tag}
     if isinstance(t, list): return {"l": [encode(x, m) for x in t]}
     if isinstance(t, tuple): return {"t": [encode(x, m) for x in t]}
     if isinstance(t, dict): return {"d": [[encode(k, m), encode(v, m)] for k, v in t.items()]}
-    if isinstance(t, _dtm.datetime): return {"dt": t.isoformat()}
-    if isinstance(t, _dtm.date): return {"date": t.isoformat()}
+    if isinstance(t, _dtm.datetime):
+        return {"dt": t.isoformat()} if not CANON[0] else {"M": (t - _dtm.datetime(1970, 1, 1)) // _dtm.timedelta(microseconds=1), "u": "us"}
+    if isinstance(t, _dtm.date):
+        return {"date": t.isoformat()} if not CANON[0] else {"M": (t - _dtm.date(1970, 1, 1)).days, "u": "D"}
     if z3.is_expr(t):
         if z3.is_fp(t): return {"f": _f_hex(m, t)}
         if z3.is_bv(t): return _i_val(m, t)
@@ -209,6 +229,10 @@ def decode(j):
     if "lod" in j:
         return LoD([[(k, decode(v)) for k, v in item] for item in j["items"]], j["lod"], j["obsolete"],
                    j["group"], j.get("item_cls"))
+    if "np" in j:
+        v = decode(j["np"])
+        return NpScalar(SymI64(v) if isinstance(v, int) and not isinstance(v, bool) else v)
+    if "td" in j: return _dtm.timedelta(microseconds=j["td"])
     if "exc" in j: return Raised(j["exc"], j.get("msg", ""))
     if "opaque" in j: return Opaque(j["opaque"])
     if "l" in j: return [decode(x) for x in j["l"]]
